@@ -84,6 +84,7 @@ type Exec struct {
 	Events   []Event
 	Trace    bool
 	chans    map[uintptr]*chanState
+	ctxKids  map[uintptr][]uintptr // Done channel of a context -> Done channels of the contexts derived from it
 	keep     []any
 	aborting bool
 	finished chan struct{}
@@ -103,9 +104,13 @@ type Exec struct {
 	policy      int
 	LogYield    bool
 	VarYield    bool
+	yieldAt     map[string]bool
 	ClockContended bool // vtime.Now is a scheduling point
 	NoHB        bool
 	MaxPoints   int
+	MaxSteps    int
+	LivelockThread string
+	Livelock    string // set when the step cap was hit: the operation the running thread keeps performing (kind@site)
 	Steps       int
 	userData    map[string]any
 	invariant   func() string
@@ -195,8 +200,10 @@ type Options struct {
 	ClockContended bool
 	LogYield       bool // every log record of the code under test is a scheduling point
 	VarYield       bool // every access to a closure-shared local variable is a scheduling point
+	YieldAt        map[string]bool // monitored locations (by name) whose accesses are scheduling points: race-directed exploration
 	Policy         int // default scheduler: 0 = lowest-numbered enabled thread first, 1 = highest-numbered first
 	MaxPoints      int // safety cap on scheduling points (0 = 200000)
+	MaxSteps       int // a thread that is still running after this many steps of the execution without the execution ending is a livelock (0 = 1000000)
 	NoHB           bool
 }
 
@@ -212,6 +219,7 @@ func Run(opt Options, body func()) *Exec {
 	}
 	e := &Exec{
 		chans:    map[uintptr]*chanState{},
+		ctxKids:  map[uintptr][]uintptr{},
 		prefix:   opt.Prefix,
 		expectFP: opt.ExpectFP,
 		Trace:    opt.Trace,
@@ -223,8 +231,13 @@ func Run(opt Options, body func()) *Exec {
 		policy: opt.Policy,
 		LogYield: opt.LogYield,
 		VarYield: opt.VarYield,
+		yieldAt:  opt.YieldAt,
 		MaxPoints: opt.MaxPoints,
+		MaxSteps:  opt.MaxSteps,
 		NoHB: opt.NoHB,
+	}
+	if e.MaxSteps == 0 {
+		e.MaxSteps = 1000000
 	}
 	if e.MaxPoints == 0 {
 		e.MaxPoints = 200000
@@ -380,8 +393,34 @@ func yield(op *Op) {
 	}
 	t.pending = op
 	e.Steps++
+	if e.Steps > e.MaxSteps && e.Livelock == "" {
+		e.livelock(t, op.Kind)
+	}
 	e.schedule(t)
 	t.pending = nil
+}
+
+// livelock ends an execution that does not end by itself: some thread keeps running without ever
+// blocking for good (a retry loop on a persistent error, a spin). Time cannot advance while it runs.
+func (e *Exec) livelock(t *Thread, kind string) {
+	e.Livelock = kind + "@" + site()
+	e.LivelockThread = t.Name
+	e.finish()
+	<-t.wake
+	runtime.Goexit()
+}
+
+// Step accounts one operation that returns at once without being a scheduling point (a call on a
+// closed socket, say), so that a loop made only of such operations is still recognised as a livelock.
+func Step(kind string) {
+	e := cur
+	if e == nil || e.aborting || e.running == nil {
+		return
+	}
+	e.Steps++
+	if e.Steps > e.MaxSteps && e.Livelock == "" {
+		e.livelock(e.running, kind)
+	}
 }
 
 // schedule is run by the thread that holds the baton (from): it picks the next
@@ -635,6 +674,18 @@ func WaitIdle() {
 		return
 	}
 	yield(&Op{Kind: "waitidle", Idle: true})
+	// Quiescence orders everything: every other thread is parked, so all they have done precedes
+	// what the caller does next. For the race monitor the wait is an acquire from every thread
+	// (a harness that then calls into the system, e.g. Stop() after a reload has completed, is
+	// not racing with the goroutine that performed the reload).
+	if e := cur; e != nil && !e.aborting && e.running != nil {
+		me := e.running
+		for _, t := range e.threads {
+			if t != me {
+				me.vc.join(t.vc)
+			}
+		}
+	}
 }
 
 // Join waits for the given threads to finish.
